@@ -169,8 +169,9 @@ def nonempty_entry(entry):
         if (c[1] == "==" and not pol) or (c[1] in ("!=", ">") and pol):
             return c[2][2][0]
         return None
-    # `if s:` on a collection-valued term (a set expression, a dict / list built here) is the same test
-    if pol and c[0] in ("bin", "dict", "list", "set", "comp", "loopout") or (pol and c[0] == "call" and c[1][0] == "global" and c[1][1] in ("set", "list", "dict", "frozenset", "sorted")):
+    # `if s:` on a collection-valued term (a set expression, a dict / list built here, the result of a call) is the same test; what the
+    # collection is has to be judged by the rule that asks
+    if pol and c[0] in ("bin", "dict", "list", "set", "comp", "loopout", "call") and not (c[0] == "bin" and c[1] in ("and", "or")):
         return c
     return None
 
@@ -556,6 +557,24 @@ class _Eval:
     s_Continue = s_Break
 
     # ---------------------------------------------------------------------------------------
+    def _namedtuple_index(self, v, i):
+        """NT(a, b, c)[i] / `x, y, z = NT(a, b, c)` -> the i-th field (same as the attribute read)"""
+        if not (v[0] in ("call", "phi") and isinstance(i, int) and i >= 0):
+            return None
+        probe = v
+        while probe[0] == "phi":
+            probe = probe[2]
+        if not (probe[0] == "call" and probe[1][0] == "global" and ":" in probe[1][1]):
+            return None
+        mod, name = probe[1][1].split(":", 1)
+        m = self.b.repo.modules.get(mod)
+        node = m.constants.get(name) if m else None
+        if not (isinstance(node, ast.Call) and isinstance(node.func, ast.Name) and node.func.id == "namedtuple" and len(node.args) >= 2
+                and isinstance(node.args[1], (ast.List, ast.Tuple))):
+            return None
+        fields = [x.value for x in node.args[1].elts if isinstance(x, ast.Constant)]
+        return self._namedtuple_field(v, fields[i]) if i < len(fields) else None
+
     def _namedtuple_field(self, v, attr):
         """NT(a, b, c).field -> the argument, when NT is a module-level namedtuple with literal field names"""
         if v[0] == "phi":
@@ -651,7 +670,8 @@ class _Eval:
                     self.store(e, x, st)
             else:
                 for i, e in enumerate(tgt.elts):
-                    self.store(e, I(index(v, ("const", i))), st)
+                    nt = self._namedtuple_index(v, i)
+                    self.store(e, I(nt if nt is not None else index(v, ("const", i))), st)
         elif isinstance(tgt, ast.Attribute):
             if isinstance(tgt.value, ast.Name) and tgt.value.id == "self" and self.env.get("self") == ("param", "self"):
                 self.attrs[tgt.attr] = v
@@ -748,9 +768,15 @@ class _Eval:
                 return ("sub", v[1], k[1][0]) if _is_mask(k[1][0]) or self._mask_valued(k[1][0]) else ("sub", v, k)
             if k[0] != "tuple" and (_is_mask(k) or self._mask_valued(k)):
                 return ("sub", v[1], k)  # frame.loc[mask] is frame[mask]
+            if k[0] == "tuple" and len(k[1]) == 2 and _is_mask(k[1][0]) and k[1][1][0] in ("const", "fstr", "list"):
+                return ("sub", ("sub", v[1], k[1][0]), k[1][1])  # frame.loc[mask, cols] is frame[mask][cols]
         if k[0] == "tuple" and len(k[1]) == 2 \
                 and k[1][0] == ("slice", ("const", None), ("const", None), ("const", None)) and k[1][1] == ("const", None):
             return ("call", ("attr", v, "reshape"), (("const", -1), ("const", 1)), ())  # x[:, None] of a vector is x.reshape(-1, 1)
+        if k[0] == "const":
+            nt = self._namedtuple_index(v, k[1])
+            if nt is not None:
+                return nt
         return index(v, k)
 
     def _mask_valued(self, k):
@@ -765,7 +791,14 @@ class _Eval:
         return ("tuple", tuple(self.expr(x) for x in e.elts))
 
     def e_List(self, e):
-        return ("list", tuple(self.expr(x) for x in e.elts))
+        out = []
+        for x in e.elts:
+            t = self.expr(x)
+            if t[0] == "starred" and t[1][0] in ("list", "tuple"):
+                out += list(t[1][1])  # [*known_display, x] is the display with the elements in place
+            else:
+                out.append(t)
+        return ("list", tuple(out))
 
     def e_Set(self, e):
         return ("set", tuple(self.expr(x) for x in e.elts))
@@ -1117,8 +1150,13 @@ def _maybe_new(ft):
 
 
 def _is_new_function(fi):
+    """a function whose NAME the inventory does not have. (A known method moved to module level or to a mixin keeps its name: it is the
+    same anchor at a new place - model.Repo.func finds it there - and is not looked through.)"""
     k = _known_functions()
-    return bool(k) and fi.fq not in k and fi.name != "__init__"
+    global _KNOWN_BARE
+    if _KNOWN_BARE is None:
+        _KNOWN_BARE = {q.split(":")[-1].split(".")[-1] for q in k}
+    return bool(k) and fi.name not in _KNOWN_BARE and fi.name != "__init__"
 
 
 def _ctor_name(ft):
